@@ -26,6 +26,7 @@ type C05Case struct {
 	Limit    int            `json:"limit,omitempty"`
 	Offset   int            `json:"offset,omitempty"`
 	Spelling string         `json:"spelling,omitempty"` // "limit" | "limit-offset" | "comma"
+	Distinct bool           `json:"distinct,omitempty"` // SELECT DISTINCT: the window applies to the de-duplicated sequence
 }
 
 func init() {
@@ -33,7 +34,7 @@ func init() {
 		ID:    "C05",
 		Title: "ORDER BY sorts, LIMIT/OFFSET return the exact window and never fail",
 		Rule: "rapid draws a table (0-10 rows, ties frequent), 0-3 sort keys among the output columns with random directions (a single key may be " +
-			"nullable), an optional WHERE and an optional LIMIT n [OFFSET m] in all three spellings with n,m in 0..len+3; oracles: the unordered " +
+			"nullable), an optional WHERE, an optional DISTINCT and an optional LIMIT n [OFFSET m] in all three spellings with n,m in 0..len+3; oracles: the unordered " +
 			"result equals the reference filter; the ordered result is a permutation of it whose adjacent pairs respect the key list " +
 			"lexicographically with NULL keys last (single key); the limited result has length min(n, max(0,|S|-m)), its key tuples equal those of " +
 			"S[m:m+n], it is a sub-multiset of S, and without ORDER BY it equals S[m:m+n] exactly; never an error. Non-trivial: >=2 rows not already " +
@@ -85,6 +86,7 @@ func genC05(t *rapid.T) any {
 			_ = k
 		}
 	}
+	c.Distinct = rapid.IntRange(0, 3).Draw(t, "distinct") == 0
 	if rapid.IntRange(0, 3).Draw(t, "haslimit") != 0 {
 		c.HasLimit = true
 		n := len(tb.Rows)
@@ -103,6 +105,9 @@ func (c *C05Case) sql(order, limit bool) string {
 		sel = strings.Join(c.Cols, ", ")
 	}
 	s := "SELECT " + sel + " FROM t"
+	if c.Distinct {
+		s = "SELECT DISTINCT " + sel + " FROM t"
+	}
 	if c.Where != nil {
 		s += " WHERE " + sq.Render(c.Where, nil)
 	}
@@ -183,6 +188,10 @@ func checkC05(c *C05Case) Result {
 	if err != nil {
 		discardOrHarness(&res, err)
 		return res
+	}
+	if c.Distinct {
+		wantU = dedupRows(wantU)
+		res.Labels = append(res.Labels, "distinct")
 	}
 	res.Labels = append(res.Labels, fmt.Sprintf("keys:%d", len(c.Keys)))
 	for _, k := range c.Keys {
